@@ -6,7 +6,7 @@
     type.  Spectral arrays: any sizes, any carrier with a zero. *)
 From Coq Require Import ZArith List Bool Lia Permutation.
 Import ListNotations.
-From Dino Require Import Base.Ops Model.Trees Thm.Trees.
+From Dino Require Import Base.Ops Base.Ord Model.Trees Thm.Trees Model.Attrs Thm.Attrs.
 
 (** flatten_dict accepts every well-formed dictionary and unflatten_dict gives
     back a dictionary that Python's [==] identifies with the input (both
@@ -111,6 +111,80 @@ Section Spectral.
   Qed.
 End Spectral.
 
+
+(** ** labelled datasets: shape -> dimension names *)
+Section Dims.
+Local Open Scope Z_scope.
+(** For an admissible coordinate system (boolean predicate [admissible]: the
+    number of layers is not 1, nodal and modal horizontal shapes differ, both
+    have two axes) and no user-supplied extra coordinates, the table that
+    data_to_xarray uses is exactly the documented one, with the sample/time
+    prefix: *)
+Theorem C19_dims_table_documented (K : Z) (modal nodal : shape) (times samples : option Z) :
+  admissible K modal nodal = true ->
+  exists M1 M2 N1 N2, modal = [M1; M2] /\ nodal = [N1; N2] /\
+  xarray_table K modal nodal times samples [] =
+    Some (map (update_shape_dims times samples false) (documented K M1 M2 N1 N2)).
+Proof. exact (xarray_table_documented K modal nodal times samples). Qed.
+
+(** ... hence the eight documented roles have pairwise different shapes, each
+    role's shape receives exactly its documented names (same rank as the
+    shape), and every accepted shape is one of the roles. *)
+Theorem C19_dims_inference_injective (K : Z) (modal nodal : shape) (times samples : option Z) :
+  admissible K modal nodal = true ->
+  exists M1 M2 N1 N2, modal = [M1; M2] /\ nodal = [N1; N2] /\
+    let doc := documented K M1 M2 N1 N2 in
+    NoDup (map fst doc) /\
+    (forall sh d, In (sh, d) doc ->
+       dims_of K modal nodal times samples [] (pre_s times samples ++ sh) = Some (Some (pre_d times samples ++ d)) /\
+       length d = length sh) /\
+    (forall sh dd, dims_of K modal nodal times samples [] sh = Some (Some dd) ->
+       exists sh0 d0, In (sh0, d0) doc /\ sh = pre_s times samples ++ sh0 /\ dd = pre_d times samples ++ d0).
+Proof. exact (dims_inference_injective K modal nodal times samples). Qed.
+
+(** Outside the predicate the table does collide (both replayed on the
+    implementation by the plugin): with one layer every 3-d nodal field
+    (1, lon, lat) is given the two names (lon, lat); with equal nodal and modal
+    shapes a 2-d field is labelled modal while 3-d fields are labelled nodal. *)
+Theorem C19_dims_one_layer_refuted (M1 M2 N1 N2 : Z) (times samples : option Z) :
+  dims_of 1 [M1; M2] [N1; N2] times samples [] (pre_s times samples ++ [1; N1; N2])
+  = Some (Some (pre_d times samples ++ NODAL)).
+Proof. exact (dims_one_layer_refuted M1 M2 N1 N2 times samples). Qed.
+
+Theorem C19_dims_nodal_eq_modal_refuted (K N1 N2 : Z) (times samples : option Z) :
+  K <> 1 ->
+  dims_of K [N1; N2] [N1; N2] times samples [] (pre_s times samples ++ [N1; N2])
+    = Some (Some (pre_d times samples ++ MODAL)) /\
+  dims_of K [N1; N2] [N1; N2] times samples [] (pre_s times samples ++ [K; N1; N2])
+    = Some (Some (pre_d times samples ++ d_level :: NODAL)) /\
+  dims_of K [N1; N2] [N1; N2] times samples [] (pre_s times samples ++ [1; N1; N2])
+    = Some (Some (pre_d times samples ++ d_surface :: NODAL)).
+Proof. exact (dims_nodal_eq_modal_refuted K N1 N2 times samples). Qed.
+
+End Dims.
+
+(** ** coordinate system -> attrs -> coordinate system *)
+(** Every field that defines the discretisation is restored: wavenumbers, node
+    counts, latitude spacing, longitude offset, radius, the vertical class and
+    its boundaries / layers / centers.  Exactly two fields are dropped: the
+    spherical-harmonics implementation class (reset to RealSphericalHarmonics)
+    and the mesh (reset to None) - see [restored]. *)
+Theorem C19_attrs_roundtrip {F : Type} {o : Ops F} (tol0 tol1 : F) (g : grid) (v : vertical) :
+  grid_ok g = true -> vertical_ok tol0 tol1 v = true ->
+  exists a, cs_asdict g v = Some a /\ from_attrs tol0 tol1 a = Some (restored g, Some v).
+Proof. exact (attrs_roundtrip tol0 tol1 g v). Qed.
+
+(** the hypotheses are satisfiable: a T21-like system with 8 layers is
+    admissible; a gauss grid with uneven sigma levels passes the constructors *)
+Example C19_attrs_hyps_satisfiable :
+  admissible 8 [43; 23]%Z [64; 32]%Z = true /\ admissible 1 [43; 23]%Z [64; 32]%Z = false /\
+  admissible 8 [7; 5]%Z [7; 5]%Z = false /\
+  let g := @mkGrid Q 22%Z 23%Z 64%Z 32%Z [103; 97; 117; 115; 115]%Z (1 # 10)%Q 6371%Q default_impl None in
+  grid_ok g = true /\
+  @vertical_ok Q QOps (1 # 100000000) (1001 # 100000000) (VSigma [0; 1 # 3; 9 # 10; 1]%Q) = true /\
+  @vertical_ok Q QOps (1 # 100000000) (1001 # 100000000) (VPressure [50; 500; 850]%Q) = true.
+Proof. vm_compute. repeat split; reflexivity. Qed.
+
 (** Non-vacuity: a non-trivial dictionary satisfies the precondition, i.e.
     {'ab': {}, 'ac': {}, '': {'a': 1, '': {}}, 'a': {'b': {'c': 2, 'd': {}}, 'bc': 3}, 'b': 4}
     with sep = '&' (38); letters a=97 b=98 c=99 d=100 *)
@@ -170,6 +244,12 @@ Print Assumptions C19_split_axis_concat.
 Print Assumptions C19_empty_pytree.
 Print Assumptions C19_down_up_identity.
 Print Assumptions C19_upsample_coef.
+Print Assumptions C19_dims_table_documented.
+Print Assumptions C19_dims_inference_injective.
+Print Assumptions C19_dims_one_layer_refuted.
+Print Assumptions C19_dims_nodal_eq_modal_refuted.
+Print Assumptions C19_attrs_roundtrip.
+Print Assumptions C19_attrs_hyps_satisfiable.
 Print Assumptions C19_hyps_satisfiable.
 Print Assumptions C19_regressions.
 Print Assumptions C19_replace_example.
